@@ -364,6 +364,17 @@ func c09Cases(c *Ctx) []rawCase {
 		{"assignable-two-lists", "rows, nrows", "type Row []int\nvar rows [][]int\nvar nrows []Row\n"},
 		{"func-noresult", "g", "func g(x, y int) {}\n"},
 		{"func-noparam", "h", "func h() {}\n"},
+		// a function without results (or without parameters) in every argument position, next to an error / a value
+		// (round 6: toerror indexed results[len-1] of a function with no results)
+		{"err-func-noresult", "e, g1", "var e error\nfunc g1(s string) {}\n"},
+		{"err-func-noparam-noresult", "e, h", "var e error\nfunc h() {}\n"},
+		{"func-noresult-err", "g1, e", "var e error\nfunc g1(s string) {}\n"},
+		{"func-noresult-int", "g, 1", "func g(x, y int) {}\n"},
+		{"int-func-noresult", "1, g", "func g(x, y int) {}\n"},
+		{"func-noresult-list", "g1, l", "var l = []string{\"a\"}\nfunc g1(s string) {}\n"},
+		{"two-funcs-noresult", "g1, g1", "func g1(s string) {}\n"},
+		{"func-noresult-func", "g1, f", "func g1(s string) {}\nfunc f(x int) string { return \"\" }\n"},
+		{"func-func-noresult", "f, g1", "func g1(s string) {}\nfunc f(x int) string { return \"\" }\n"},
 		{"two-funcs-mismatch", "f, k", "func f(x int) (int, error) { return x, nil }\nfunc k(s string) (string, error) { return s, nil }\n"},
 		{"chan", "ch", "var ch chan int\n"},
 		{"slice-mismatch", "l, \"s\"", "var l = []int{1}\n"},
@@ -374,7 +385,7 @@ func c09Cases(c *Ctx) []rawCase {
 	}
 	for pi, pl := range plugins {
 		for si, sh := range argShapes {
-			if c.Quick && (pi+si)%2 != int(c.Seed%2) && si > 2 && !strings.HasPrefix(sh.name, "variadic") && !strings.HasPrefix(sh.name, "assignable-") && !strings.Contains(sh.name, "nil") {
+			if c.Quick && (pi+si)%2 != int(c.Seed%2) && si > 2 && !strings.HasPrefix(sh.name, "variadic") && !strings.HasPrefix(sh.name, "assignable-") && !strings.Contains(sh.name, "nil") && !strings.Contains(sh.name, "noresult") {
 				continue
 			}
 			src := "package p\n\n" + sh.pre + "\nfunc use() { derive" + pl + "(" + sh.args + ") }\n"
